@@ -149,7 +149,9 @@ def make_form(rng, i):
         elif x < 0.8:
             fnm = rng.choice(["fruits", "cities", "prices"])
             if rng.random() < 0.5:
-                rows.append(Row("q", "calculate", nm, {"calculation": f"pulldata('{fnm}', 'a', 'b', ${{seedq}})"}))
+                # a blank before the parenthesis, or a line break inside the call, is still the same call
+                call = rng.choice(["pulldata(", "pulldata(", "pulldata (", "pulldata  (", "pulldata( "])
+                rows.append(Row("q", "calculate", nm, {"calculation": f"{call}'{fnm}', 'a', 'b', ${{seedq}})"}))
             else:
                 # one row calling pulldata() from several of its cells, each naming another file: every file needs its instance
                 files = rng.sample(["fruits", "cities", "prices", "previous", "planned", "stock"], rng.randint(2, 4))
